@@ -25,6 +25,8 @@ type c15Repl struct {
 	nid  string       // value of data.PointTypeNodeID
 
 	ptsLoop, chLoop *ast.RangeStmt
+	ptsCopies       map[types.Object]bool // locals holding a copy of the current point
+	chCopies        map[types.Object]bool // locals holding a copy of the current child
 	st              *kit.Std
 	helpers         map[*kit.Func]bool
 
@@ -89,7 +91,7 @@ func (r *c15Repl) ptElem(e ast.Expr) (inSlice, copy bool) {
 			}
 		}
 	}
-	if r.ptsLoop.Value != nil && kit.ObjOf(r.info, e) != nil && kit.ObjOf(r.info, e) == kit.ObjOf(r.info, r.ptsLoop.Value) {
+	if o := kit.ObjOf(r.info, e); o != nil && r.ptsCopies[o] {
 		return false, true
 	}
 	if ix, ok := e.(*ast.IndexExpr); ok && r.ptsLoop.Key != nil && kit.ObjOf(r.info, ix.Index) != nil &&
@@ -286,22 +288,25 @@ func c15R3(c *kit.Ctx, a *c15Anchors, r3 *kit.Rule) {
 			if c15IsStrMap(info.TypeOf(x.X)) && r.M == nil {
 				r.M = kit.ObjOf(info, x.X)
 			}
-		case *ast.RangeStmt:
-			if c15Field(info, x.X, "Points", r.isN) {
-				if r.ptsLoop != nil {
-					c.Fatalf("replacer %s loops twice over the points", f.Name)
-				}
-				r.ptsLoop = x
-			}
-			if c15Field(info, x.X, "Children", r.isN) {
-				if r.chLoop != nil {
-					c.Fatalf("replacer %s loops twice over the children", f.Name)
-				}
-				r.chLoop = x
-			}
 		}
 		return true
 	})
+	for _, x := range f.SliceLoops(f.Body) {
+		if c15Field(info, x.X, "Points", r.isN) {
+			if r.ptsLoop != nil {
+				c.Fatalf("replacer %s loops twice over the points", f.Name)
+			}
+			r.ptsLoop = x
+			r.ptsCopies = kit.ElemAliases(info, x)
+		}
+		if c15Field(info, x.X, "Children", r.isN) {
+			if r.chLoop != nil {
+				c.Fatalf("replacer %s loops twice over the children", f.Name)
+			}
+			r.chLoop = x
+			r.chCopies = kit.ElemAliases(info, x)
+		}
+	}
 	r.helpers = map[*kit.Func]bool{}
 	for _, h := range a.replHelpers {
 		r.helpers[h] = true
@@ -487,7 +492,7 @@ func c15R3(c *kit.Ctx, a *c15Anchors, r3 *kit.Rule) {
 			if ix, ok := x.(*ast.IndexExpr); ok && r.chLoop.Key != nil && kit.ObjOf(info, ix.Index) == kit.ObjOf(info, r.chLoop.Key) &&
 				c15Field(info, ix.X, "Children", r.isN) {
 				okArg = true
-			} else if r.chLoop.Value != nil && kit.ObjOf(info, x) != nil && kit.ObjOf(info, x) == kit.ObjOf(info, r.chLoop.Value) {
+			} else if o := kit.ObjOf(info, x); o != nil && r.chCopies[o] {
 				r.treeMsgs.viol("%s recurses into the address of the loop's value variable, a copy of the child: the replaced ids are lost", f.Str(call))
 				okArg = true
 			}
@@ -1010,7 +1015,7 @@ func c15R4(c *kit.Ctx, a *c15Anchors, r4 *kit.Rule) {
 			// unreachable when the element's type is not description
 			elem := func(e ast.Expr) bool {
 				e = ast.Unparen(e)
-				if loop.val != nil && kit.ObjOf(gi, e) != nil && kit.ObjOf(gi, e) == loop.val {
+				if o := kit.ObjOf(gi, e); o != nil && loop.aliases[o] {
 					return true
 				}
 				if jx, ok := e.(*ast.IndexExpr); ok {
@@ -1198,66 +1203,24 @@ func c15R4(c *kit.Ctx, a *c15Anchors, r4 *kit.Rule) {
 // c15IndexLoop describes the innermost loop around a node that visits the
 // elements of a slice by index: `for k, v := range X` or `for i := 0; i < len(X); i++`.
 type c15IndexLoop struct {
-	stmt  ast.Stmt
-	x     ast.Expr
-	key   types.Object
-	val   types.Object
-	entry *cfg.Block
+	stmt    ast.Stmt
+	x       ast.Expr
+	key     types.Object
+	val     types.Object
+	aliases map[types.Object]bool
+	entry   *cfg.Block
 }
 
 func c15IndexLoopOf(c *kit.Ctx, g *kit.Func, n ast.Node) *c15IndexLoop {
 	gi := g.Info()
-	gr := c.P.Graph(g)
-	enc := g.Enclosing(n, func(x ast.Node) bool {
-		switch x.(type) {
-		case *ast.RangeStmt, *ast.ForStmt:
-			return true
-		}
-		return false
-	})
-	switch l := enc.(type) {
-	case *ast.RangeStmt:
-		out := &c15IndexLoop{stmt: l, x: l.X, entry: c15BodyEntry(gr, l)}
-		if l.Key != nil {
-			out.key = kit.ObjOf(gi, l.Key)
-		}
-		if l.Value != nil {
-			out.val = kit.ObjOf(gi, l.Value)
-		}
-		return out
-	case *ast.ForStmt:
-		init, ok := l.Init.(*ast.AssignStmt)
-		if !ok || len(init.Lhs) != 1 || len(init.Rhs) != 1 || l.Cond == nil {
-			return nil
-		}
-		if k, ok := kit.ConstInt(gi, init.Rhs[0]); !ok || k != 0 {
-			return nil
-		}
-		iv := kit.ObjOf(gi, init.Lhs[0])
-		a, b, op, isCmp := kit.CmpAtom(l.Cond)
-		if !isCmp || iv == nil {
-			return nil
-		}
-		if op == token.GTR {
-			a, b, op = b, a, token.LSS
-		}
-		if op != token.LSS || kit.ObjOf(gi, a) != iv {
-			return nil
-		}
-		call, ok := ast.Unparen(b).(*ast.CallExpr)
-		if !ok || len(call.Args) != 1 {
-			return nil
-		}
-		if bi, ok := kit.Callee(gi, call).(*types.Builtin); !ok || bi.Name() != "len" {
-			return nil
-		}
-		out := &c15IndexLoop{stmt: l, x: call.Args[0], key: iv}
-		for _, blk := range gr.G.Blocks {
-			if blk.Live && blk.Kind == cfg.KindForBody && blk.Stmt == ast.Stmt(l) {
-				out.entry = blk
-			}
-		}
-		return out
+	l := g.EnclosingLoop(n)
+	if l == nil {
+		return nil
 	}
-	return nil
+	out := &c15IndexLoop{stmt: l, x: l.X, entry: c15BodyEntry(c.P.Graph(g), l), aliases: kit.ElemAliases(gi, l)}
+	if l.Key != nil {
+		out.key = kit.ObjOf(gi, l.Key)
+	}
+	out.val = kit.LoopElemVar(gi, l)
+	return out
 }
